@@ -354,8 +354,8 @@ func verifModelBinaryWrite(w io.Writer, order binary.ByteOrder, data any) error 
 // buffer: the tail shrinks by exactly what was handed out, so windows of successive values never overlap
 //@ func mergeStoredAndRemap$2 returns (keep)
 //@ thin
-//@ tags [C05]
-//@ ensures keep && len(pos) > 0 && old(cap(posTemp)) >= len(pos) ==> base(posTemp) == old(base(posTemp)) && off(posTemp) == old(off(posTemp)) + len(pos) && cap(posTemp) == old(cap(posTemp)) - len(pos) [C05]
+//@ tags [C05,C09]
+//@ ensures keep && len(pos) > 0 && old(cap(posTemp)) >= len(pos) ==> base(posTemp) == old(base(posTemp)) && off(posTemp) == old(off(posTemp)) + len(pos) && cap(posTemp) == old(cap(posTemp)) - len(pos) [C05,C09]
 //@ end
 
 //@ func mergeStoredAndRemap returns (storedIndexOffset, rv, err)
@@ -562,7 +562,7 @@ func lemma1HitDiscriminator(docNum, normBits uint64) {
 //@ requires w != nil
 //@ assert (*Thesaurus).synonymsListFromOffset#1 : !bm64Empty(newRoaring) ==> bytesEq(row(prevTerm), off(prevTerm), len(prevTerm), row(term), off(term), len(term)) [C13]
 //@ assert (*vellum.Builder).Close#1 : bm64Empty(newRoaring) [C13]
-//@ assert newEnumerator#1 : len(termSynMap) == 0 && newSynonymID == 0 [C13]
+//@ assert newEnumerator#1 : len(termSynMap) == 0 && newSynonymID == 0 [C09,C13]
 // an input whose thesaurus FST is empty (its iterator reports exhaustion at once) does not abort the merge
 //@ tolerates vellum.ErrIteratorDone as err from (*vellum.FST).Iterator [C13]
 // the per-thesaurus parallel slices (iterators, thesauri, deletion bitmaps, doc-number tables) are rebuilt for every
@@ -816,18 +816,18 @@ func lemma1HitDiscriminator(docNum, normBits uint64) {
 
 //@ func (*PostingsIterator).nextDocNumAtOrAfter returns (docNum, found, err)
 //@ thin
-//@ tags [C07]
+//@ tags [C06,C07]
 //@ requires i != nil
 //@ wf requires itGeneral(i) ==> itWF(i) && itSubset(i)
-//@ requires itInv(i) [C07]
+//@ requires itInv(i) [C06,C07]
 //@ ensures old(i.normBits1Hit) != 0 ==> err == nil && i.docNum1Hit == DocNum1HitFinished && i.normBits1Hit == old(i.normBits1Hit)
 //@ ensures old(i.normBits1Hit) != 0 ==> (found <==> (old(i.docNum1Hit) != DocNum1HitFinished && old(i.docNum1Hit) >= atOrAfter))
 //@ ensures old(i.normBits1Hit) != 0 && found ==> docNum == old(i.docNum1Hit)
 //@ ensures old(i.normBits1Hit) != 0 && !found ==> docNum == 0
-//@ ensures err == nil && found && old(i.normBits1Hit) == 0 ==> itLockAt(i, docNum) && docNum >= atOrAfter [C07]
-//@ ensures err == nil && found && old(i.normBits1Hit) == 0 ==> itBehind(i) && itGeneral(i) [C07]
-//@ ensures err == nil && found && old(i.normBits1Hit) == 0 && i.postings.postings != i.ActualBM ==> sHas(itSet(i.Actual), uint32(docNum)) [C07]
-//@ ensures err == nil && !found && old(itGeneral(i)) ==> itDone(i) [C07]
+//@ ensures err == nil && found && old(i.normBits1Hit) == 0 ==> itLockAt(i, docNum) && docNum >= atOrAfter [C06,C07]
+//@ ensures err == nil && found && old(i.normBits1Hit) == 0 ==> itBehind(i) && itGeneral(i) [C06,C07]
+//@ ensures err == nil && found && old(i.normBits1Hit) == 0 && i.postings.postings != i.ActualBM ==> sHas(itSet(i.Actual), uint32(docNum)) [C06,C07]
+//@ ensures err == nil && !found && old(itGeneral(i)) ==> itDone(i) [C06,C07]
 //@ ensures i.postings == old(i.postings) && i.all == old(i.all) && i.Actual == old(i.Actual) && i.ActualBM == old(i.ActualBM) && i.includeFreqNorm == old(i.includeFreqNorm) && i.includeLocs == old(i.includeLocs) && i.freqNormReader == old(i.freqNormReader) && i.locReader == old(i.locReader)
 //@ loop 1 invariant i.normBits1Hit == 0 && itGeneral(i) && itWF(i) && itSubset(i) && i.postings.postings != i.ActualBM && i.postings == old(i.postings) && i.all == old(i.all) && i.Actual == old(i.Actual) && i.includeFreqNorm == old(i.includeFreqNorm) && i.includeLocs == old(i.includeLocs) && i.freqNormReader == old(i.freqNormReader) && i.locReader == old(i.locReader)
 //@ loop 1 invariant itRank(i.all) >= 1 && itRank(i.all) <= sCard(itSet(i.all)) && int(allN) == int(sNth(itSet(i.all), itRank(i.all) - 1))
@@ -835,8 +835,8 @@ func lemma1HitDiscriminator(docNum, normBits uint64) {
 //@ loop 1 invariant sHas(itSet(i.all), n) && sHas(itSet(i.Actual), n)
 //@ loop 1 invariant uint64(n) >= atOrAfter
 //@ loop 1 invariant nChunk == n / uint32(i.postings.chunkSize) && int(allNReachesNChunk) == int(nChunk) * int(i.postings.chunkSize) && itRank(i.Actual) >= 1 && int(n) == int(sNth(itSet(i.Actual), itRank(i.Actual) - 1)) && itRank(i.Actual) <= sCard(itSet(i.Actual))
-//@ loop 1 invariant i.includeFreqNorm && rdLoaded(i) && i.currChunk == nChunk ==> recsRead(i) == itRank(i.all) - 1 - sRank(itSet(i.all), int(allNReachesNChunk)) && itRank(i.all) - 1 >= sRank(itSet(i.all), int(allNReachesNChunk)) [C07]
-//@ loop 1 invariant i.includeFreqNorm && !(rdLoaded(i) && i.currChunk == nChunk) ==> itRank(i.all) - 1 <= sRank(itSet(i.all), int(allNReachesNChunk)) [C07]
+//@ loop 1 invariant i.includeFreqNorm && rdLoaded(i) && i.currChunk == nChunk ==> recsRead(i) == itRank(i.all) - 1 - sRank(itSet(i.all), int(allNReachesNChunk)) && itRank(i.all) - 1 >= sRank(itSet(i.all), int(allNReachesNChunk)) [C06,C07]
+//@ loop 1 invariant i.includeFreqNorm && !(rdLoaded(i) && i.currChunk == nChunk) ==> itRank(i.all) - 1 <= sRank(itSet(i.all), int(allNReachesNChunk)) [C06,C07]
 //@ end
 
 //@ func (*PostingsIterator).readLocation returns (err)
@@ -868,6 +868,15 @@ func lemma1HitDiscriminator(docNum, normBits uint64) {
 //@ wf requires itGeneral(i) ==> itWF(i) && itSubset(i) && i.includeFreqNorm
 //@ requires itInv(i) [C07]
 //@ assert (*PostingsIterator).readFreqNormHasLocs#1 : i.normBits1Hit == 0 ==> itLockAt(i, docNum) [C06,C07]
+// single-hit entry: the record synthesised for the byte-copying merge is (frequency 1, no locations) followed by the
+// entry's own norm bits - the values returned beside it
+//@ assert encoding/binary.PutUvarint#1 : $x == freqHasLocs1Hit && base($buf) == base(i.buf) && off($buf) == off(i.buf) [C06]
+//@ assert encoding/binary.PutUvarint#2 : $x == i.normBits1Hit && base($buf) == base(i.buf) && off($buf) == off(i.buf) + n [C06]
+//@ ensures err == nil && old(i.normBits1Hit) != 0 && len(bytesFreqNorm) > 0 ==> freq == 1 && normBits == old(i.normBits1Hit) && bytesLoc == nil [C06]
+// general entry: the bytes handed over are what the record reader consumed (window taken before and after the read,
+// from the reader the read went through)
+//@ assert (*chunkedIntDecoder).readBytes#1 : $d == i.freqNormReader && $start == startFreqNorm && $end == endFreqNorm [C06]
+//@ assert (*chunkedIntDecoder).readBytes#2 : $d == i.locReader && $start == startLoc && $end == endLoc [C06]
 //@ ensures err == nil ==> itInv(i) [C07]
 //@ end
 
@@ -949,6 +958,9 @@ func lemma1HitDiscriminator(docNum, normBits uint64) {
 // an input whose dictionary for the field is empty (its iterator reports exhaustion at once) does not abort the merge
 //@ tolerates vellum.ErrIteratorDone as err from (*vellum.FST).Iterator [C05,C06]
 //@ assert (*Dictionary).postingsListFromOffset#2 : $d == dicts[itrI] && $except == drops[itrI] && $postingsOffset == postingsOffset [C06,C08]
+// the doc-value merge walks a private clone of each input's reader, never the reader stored in the segment (which
+// concurrent merges and searches of the same segment share)
+//@ assert (*docValueReader).iterateAllDocValues#1 : $di != dvIter [C06,C11]
 //@ loop 5 invariant chanClosed(closeCh) == old(chanClosed(closeCh))
 //@ modifies *, ghost chanClosed[closeCh], ghost bmSet, ghost itSet, ghost coderSized
 //@ end
@@ -1334,6 +1346,15 @@ func lemmaUvLenRange(a []byte, o int) {}
 // a freq/norm record is the freq/has-locations word followed by the norm exactly when the frequency is not zero
 //@ assert (*chunkedIntCoder).Add#1 : freqNorm.freq > 0 && len($vals) == 2 && $vals[0] >> 1 == freqNorm.freq & 0x7fffffffffffffff && (($vals[0] & 1 != 0) <==> freqNorm.numLocs > 0) [C06,C09]
 //@ assert (*chunkedIntCoder).Add#2 : freqNorm.freq == 0 && len($vals) == 1 && $vals[0] >> 1 == 0 && (($vals[0] & 1 != 0) <==> freqNorm.numLocs > 0) [C06,C09]
+// the pass that sizes a hit's location block and the pass that writes it walk the same window of the term's location
+// list (numLocs entries from locOffset) and describe entry k by the same five numbers and array positions
+//@ assert totalUvarintBytes#1 : 0 <= $k && $k < freqNorm.numLocs && $a == uint64(locs[locOffset + $k].fieldID) && $b == locs[locOffset + $k].pos && $c == locs[locOffset + $k].start && $d == locs[locOffset + $k].end && int($e) == len(locs[locOffset + $k].arrayposs) && len($more) == len(locs[locOffset + $k].arrayposs) [C01,C09]
+// per posting of a term: the next freq/norm entry is consumed, and its numLocs location entries
+//@ loop 4 step 0 <= prev(freqNormOffset) && prev(freqNormOffset) < 0x3fffffffffffffff && 0 <= prev(locOffset) && prev(locOffset) < 0x3fffffffffffffff && freqNorm.numLocs < 0x3fffffffffffffff ==> freqNormOffset == prev(freqNormOffset) + 1 && locOffset == prev(locOffset) + ite(freqNorm.numLocs > 0, freqNorm.numLocs, 0) [C01,C09]
+//@ loop 4 step 0 <= prev(freqNormOffset) && prev(freqNormOffset) < len(freqNorms) ==> freqNorm.freq == freqNorms[prev(freqNormOffset)].freq && freqNorm.numLocs == freqNorms[prev(freqNormOffset)].numLocs && freqNorm.norm == freqNorms[prev(freqNormOffset)].norm [C01,C09]
+//@ assert (*chunkedIntCoder).Add#3 : $docNum == docNum && len($vals) == 1 [C01,C09]
+//@ assert (*chunkedIntCoder).Add#4 : 0 <= $k && $k < freqNorm.numLocs && $docNum == docNum && len($vals) == 5 && $vals[0] == uint64(locs[locOffset + $k].fieldID) && $vals[1] == locs[locOffset + $k].pos && $vals[2] == locs[locOffset + $k].start && $vals[3] == locs[locOffset + $k].end && int($vals[4]) == len(locs[locOffset + $k].arrayposs) [C01,C09]
+//@ assert (*chunkedIntCoder).Add#5 : $docNum == docNum && len($vals) == len(locs[locOffset + $k].arrayposs) && base($vals) == base(locs[locOffset + $k].arrayposs) && off($vals) == off(locs[locOffset + $k].arrayposs) [C01,C09]
 //@ end
 
 // ---- C03 / C06: the chunked content coder (doc values) files every document under the chunk of its number ----
@@ -1528,6 +1549,8 @@ func lemmaSynonymCodeRoundTrip(synonymID, docID uint32) {
 //@ func (*invertedIndexOpaque).realloc$3
 //@ thin
 //@ tags [C01]
+// a field's doc-values flag is only ever raised: it is true if any instance of the field in the batch asks for doc values
+//@ local ensures 0 <= int(fieldID) && int(fieldID) < old(len(i.IncludeDocValues)) && old(i.IncludeDocValues[int(fieldID)]) ==> i.IncludeDocValues[int(fieldID)] [C01,C03]
 //@ loop 1 step 0 <= prev(totLocs) && prev(totLocs) <= 0x3fffffffffffffff ==> totLocs == prev(totLocs) + len(tf.Locations) [C01]
 //@ loop 1 step prev(haskey(dict, term)) && prev(base(i.numLocsPerPostingsList) != base(i.numTermsPerPostingsList)) && 0 <= int(pid) && int(pid) < prev(len(i.numLocsPerPostingsList)) && int(pid) < prev(len(i.numTermsPerPostingsList)) && 0 <= prev(i.numLocsPerPostingsList[int(pid)]) && prev(i.numLocsPerPostingsList[int(pid)]) <= 0x3fffffffffffffff && 0 <= prev(i.numTermsPerPostingsList[int(pid)]) && prev(i.numTermsPerPostingsList[int(pid)]) <= 0x3fffffffffffffff ==> i.numLocsPerPostingsList[int(pid)] == prev(i.numLocsPerPostingsList[int(pid)]) + len(tf.Locations) && i.numTermsPerPostingsList[int(pid)] == prev(i.numTermsPerPostingsList[int(pid)]) + 1 [C01]
 //@ end
@@ -1538,8 +1561,52 @@ func lemmaSynonymCodeRoundTrip(synonymID, docID uint32) {
 //@ thin
 //@ tags [C01]
 //@ loop 3 invariant 0 <= $k && $k <= len(tf.Locations) && len(locs) == entry(len(locs)) + $k [C01]
+// the document is added to the postings of the token's own term in the field's own dictionary, and the entry records
+// the token's frequency
+//@ assert (*roaring/v2.Bitmap).Add#1 : int($x) == int(docNum) && pid == uint64(mapget(dict, term) - 1) && (0 <= int(pid) && int(pid) < len(io.Postings) ==> $rb == io.Postings[int(pid)]) [C01]
+//@ loop 2 step 0 <= int(pid) && int(pid) < prev(len(io.FreqNorms)) && prev(len(io.FreqNorms[int(pid)])) <= 0x3fffffffffffff ==> io.FreqNorms[int(pid)][prev(len(io.FreqNorms[int(pid)]))].freq == uint64(tfFreqOf(tf)) [C01]
 //@ loop 2 step 0 <= int(pid) && int(pid) < prev(len(io.FreqNorms)) && prev(len(io.FreqNorms[int(pid)])) <= 0x3fffffffffffff ==> len(io.FreqNorms[int(pid)]) == prev(len(io.FreqNorms[int(pid)])) + 1 && io.FreqNorms[int(pid)][prev(len(io.FreqNorms[int(pid)]))].numLocs == len(tf.Locations) [C01]
 //@ loop 2 step 0 <= int(pid) && int(pid) < prev(len(io.Locs)) && prev(len(io.Locs[int(pid)])) <= 0x3fffffffffffff && len(tf.Locations) > 0 ==> len(io.Locs[int(pid)]) == prev(len(io.Locs[int(pid)])) + len(tf.Locations) [C01]
+//@ end
+
+// the document walk of a build: document k of the batch is processed as document number k; every field of it is handed
+// to every section with its own id, and the end-of-document call (nil field, id 0xffff) carries the same number
+//@ func (*interim).processDocuments
+//@ thin
+//@ tags [C01,C02,C03]
+//@ assert (*interim).processDocument#1 : $k < 0x100000000 ==> int($docNum) == $k [C01,C02,C03]
+//@ end
+
+// names for the arguments of the sections' Process method (no postcondition is assumed: the heap is unknown after it)
+//@ func section.Process(this, opaque, docNum, f, fieldID)
+//@ trusted
+//@ modifies *
+//@ end
+
+//@ func (*interim).processDocument$1
+//@ thin
+//@ tags [C01,C03]
+//@ assert section.Process#1 : $docNum == docNum && $f == field && $fieldID == fieldID && $opaque == s.opaque [C01,C03]
+//@ end
+
+//@ func (*invertedTextIndexSection).Process
+//@ thin
+//@ tags [C01,C03]
+//@ assert (*invertedIndexOpaque).process#1 : $field == field && $fieldID == fieldID && $docNum == docNum [C01,C03]
+//@ modifies *
+//@ end
+
+//@ func (*synonymIndexSection).Process
+//@ thin
+//@ tags [C12]
+//@ assert (*synonymIndexOpaque).process#1 : $fieldID == fieldID && $docNum == docNum [C12]
+//@ modifies *
+//@ end
+
+//@ func (*interim).processDocument
+//@ thin
+//@ tags [C01,C03]
+//@ assert section.Process#1 : $docNum == docNum && $f == nil && $fieldID == 0xffff && $opaque == s.opaque [C01,C03]
 //@ end
 
 // ---- C01 / C06: the chunk size is (re)computed for every term before its postings are encoded ----
@@ -1637,6 +1704,8 @@ func lemmaSynonymCodeRoundTrip(synonymID, docID uint32) {
 //@ requires di != nil
 //@ wf requires rv != di
 //@ ensures r != nil && (rv != nil ==> r == rv) && (rv == nil ==> fresh(r))
+// the clone is never the reader it was cloned from (the segment's own reader is shared by every user of the segment)
+//@ ensures r != di [C03,C06,C11]
 //@ ensures r.curChunkNum == 0xffffffffffffffff && r.chunkOffsets == di.chunkOffsets && r.dvDataLoc == di.dvDataLoc && r.field == di.field
 //@ ensures len(r.curChunkHeader) == 0 && r.curChunkData == nil && len(r.uncompressed) == 0
 //@ ensures di.curChunkNum == old(di.curChunkNum) && di.chunkOffsets == old(di.chunkOffsets) && di.dvDataLoc == old(di.dvDataLoc) && di.curChunkHeader == old(di.curChunkHeader) && di.curChunkData == old(di.curChunkData) && di.uncompressed == old(di.uncompressed) [C11]
@@ -1649,17 +1718,18 @@ func lemmaSynonymCodeRoundTrip(synonymID, docID uint32) {
 //@ ensures n == di.curChunkNum
 //@ end
 
+// (the doc-value merge of C06 replays every chunk of every input through this loader: iterateAllDocValues)
 //@ func (*docValueReader).loadDvChunk returns (err)
 //@ thin
-//@ tags [C03]
+//@ tags [C03,C06]
 //@ requires di != nil && s != nil
 //@ wf requires chunkNumber < uint64(len(di.chunkOffsets))
-//@ ensures err == nil ==> di.curChunkNum == chunkNumber && len(di.uncompressed) == 0 [C03]
+//@ ensures err == nil ==> di.curChunkNum == chunkNumber && len(di.uncompressed) == 0 [C03,C06]
 // the header of the loaded chunk has exactly as many entries as the chunk announces (none of a chunk loaded before
 // into the same reader), each entry decoded from this chunk
-//@ local ensures err == nil && start >= end ==> len(di.curChunkHeader) == 0 [C03]
-//@ local ensures err == nil && start < end ==> len(di.curChunkHeader) == int(numDocs) [C03]
-//@ loop 1 invariant len(di.curChunkHeader) == int(numDocs) && 0 <= i [C03]
+//@ local ensures err == nil && start >= end ==> len(di.curChunkHeader) == 0 [C03,C06]
+//@ local ensures err == nil && start < end ==> len(di.curChunkHeader) == int(numDocs) [C03,C06]
+//@ loop 1 invariant len(di.curChunkHeader) == int(numDocs) && 0 <= i [C03,C06]
 //@ ensures di.chunkOffsets == old(di.chunkOffsets) && di.dvDataLoc == old(di.dvDataLoc) && di.field == old(di.field)
 //@ modifies docValueReader.*[di], alloc, new MetaData.*, elems(*)
 //@ end
@@ -1691,6 +1761,9 @@ func lemmaSynonymCodeRoundTrip(synonymID, docID uint32) {
 //@ requires s != nil
 //@ assert (*docValueReader).visitDocValues#1 : $di.curChunkNum == docInChunk && $docNum == localDocNum [C03]
 //@ assert getChunkSize#1 : $chunkMode == LegacyChunkMode [C03,C09]
+// a visit state handed in from another segment - or one that was never bound - gets a new reader table before it is used:
+// every reader consulted below was cloned from this segment's readers
+//@ assert getChunkSize#1 : typeis(dvsIn, ptr_docVisitState) && ptr_docVisitState(payload(dvsIn)) != nil && old(ptr_docVisitState(payload(dvsIn)).segment) != s ==> fresh(dvs.dvrs) [C03]
 //@ end
 
 //@ func (*SegmentBase).VisitableDocValueFields returns (names, err)
